@@ -259,6 +259,13 @@ func drvCompete(r *rand.Rand, n int) [][]Action {
 		variants := []string{"a/" + b, "b/" + b, "c/" + strings.ToUpper(b), "e/" + b + "-", "f/" + b + ".", "g/9" + b, "h/" + b + "/", b, "i/" + b + "1", "j/" + b + "2", "k/pkg_" + b}
 		r.Shuffle(len(variants), func(x, y int) { variants[x], variants[y] = variants[y], variants[x] })
 		k := 2 + r.Intn(5)
+		if i%10 == 0 {
+			// many competitors: the numeric suffix goes beyond one digit
+			for j := 0; j < 8+r.Intn(25); j++ {
+				variants = append(variants, fmt.Sprintf("many%d/%s", j, b))
+			}
+			k = len(variants)
+		}
 		h := []Action{newAct("", []string{"", "pkg"}[r.Intn(2)])}
 		for j := 0; j < k; j++ {
 			p := variants[j]
